@@ -48,6 +48,13 @@
   896 (unlock, `mutex_locked_by_integrate = 0` at 901: `postUnlock`); a dereference after the free is recorded in
   `memerr` (heap use after free).  A stop inside such an iteration also sets the history flag `racy`.
 
+  Two more pieces of the anchored code are in the model.  (i) Static routes (`/`, `/index.html`, `/rebound.html`,
+  `/favicon.ico`, server.c:382-395) answer without touching `r` and without the mutex: observed event `sStatic`.
+  (ii) `reb_simulation_output_screenshot` (output.c:273-323), called from a heartbeat inside a locked iteration, RELEASES the
+  mutex (`iShotUnlock`: `stepped → shotWait`), waits for the browser's POST `/screenshot` (served under the mutex like a key
+  press) and takes the mutex again (`iShotLock`) before the loop continues: the server may serialise while the integrator
+  waits there, at a step boundary.
+
   Mathlib-free; `step` is executable and is what `drv_c19` runs on the traces logged by
   the `LD_PRELOAD` shim from the real library.
 -/
@@ -90,6 +97,7 @@ inductive IPc where
   | locked     -- 853-856: holds the mutex, step not yet started
   | stepping   -- 857: inside `reb_simulation_step`
   | stepped    -- 858-861: heartbeat, sigint test, still holds the mutex
+  | shotWait   -- output.c:281-297: inside the heartbeat, mutex released, waiting for the screenshot to arrive
   | postUnlock -- 872: `pthread_mutex_unlock` returned, `r->server_data->mutex_locked_by_integrate = 0` (874) pending
   | unlocked   -- 874-877: iteration finished
   | epi        -- 880: loop left, epilogue not yet writing
@@ -140,6 +148,8 @@ inductive Ev where
   | iSetFlag               -- `r->server_data->mutex_locked_by_integrate = 1`              (silent)
   | iStepBegin             -- `reb_simulation_step` entered
   | iStepEnd               -- `reb_simulation_step` returns
+  | iShotUnlock            -- output.c:287 `pthread_mutex_unlock` inside `reb_simulation_output_screenshot` (heartbeat)
+  | iShotLock              -- output.c:304 `pthread_mutex_lock` again
   | iUnlock                -- 868: read `r->server_data` non-NULL, `pthread_mutex_unlock`
   | iSkipUnlock            -- 868: read `r->server_data` NULL, no unlock                   (silent)
   | iClrFlag               -- `r->server_data->mutex_locked_by_integrate = 0`              (silent)
@@ -156,17 +166,19 @@ inductive Ev where
   | sSerEnd                -- `reb_simulation_save_to_stream` returns
   | sClrNC                 -- `need_copy = 0`                                       (silent)
   | sUnlock                -- `pthread_mutex_unlock`
+  | sStatic                -- a static route (`/`, `/favicon.ico` …) is answered: no access to `r`, no mutex
+  | sDrop                  -- the request gets no response at all (`/keyboard/<unknown key>`: `default: break`, server.c:376)  (silent)
   | sSent                  -- the response is written to the socket (`fwrite(reb_server_header…)`, server.c:328)
   deriving DecidableEq, Repr, Inhabited
 
 def Ev.isI : Ev → Bool
   | .iEnter | .iChkBegin | .iChkSync | .iChkEnd _ | .iSeeSrv _ | .iSpin | .iSeeNC0 | .iLock | .iSetFlag
-  | .iStepBegin | .iStepEnd | .iUnlock | .iSkipUnlock | .iClrFlag | .iEpiSync | .iLeave => true
+  | .iStepBegin | .iStepEnd | .iShotUnlock | .iShotLock | .iUnlock | .iSkipUnlock | .iClrFlag | .iEpiSync | .iLeave => true
   | _ => false
 
 /-- events the shim cannot see (plain loads/stores of `need_copy`, socket I/O) -/
 def Ev.silent : Ev → Bool
-  | .iSeeNC0 | .iSeeSrv _ | .iSkipUnlock | .iSetFlag | .iClrFlag | .sReq | .sSetNC | .sClrNC => true
+  | .iSeeNC0 | .iSeeSrv _ | .iSkipUnlock | .iSetFlag | .iClrFlag | .sReq | .sSetNC | .sClrNC | .sDrop => true
   | _ => false
 
 /-- an unlocked write of `r` begins (the three places of the code that do it) -/
@@ -217,6 +229,11 @@ def step (s : State) : Ev → Option State
     if s.ipc = .stepping then
       some { s with ipc := .stepped, sim := { s.sim with phase := .atBoundary, steps := s.sim.steps + 1 } }
     else none
+  | .iShotUnlock =>
+    -- only if this iteration holds the mutex (output.c:283 tests mutex_locked_by_integrate)
+    if s.ipc = .stepped ∧ s.ilock = true ∧ s.owner = some .I then some { s with ipc := .shotWait, owner := none } else none
+  | .iShotLock =>
+    if s.ipc = .shotWait ∧ s.owner = none then some { s with ipc := .stepped, owner := some .I } else none
   | .iUnlock =>
     -- rebound.c:868 `if (r->server_data)` read again: non-NULL → pthread_mutex_unlock.  If this iteration never
     -- locked, that is an unlock of a mutex the thread does not own: undefined behaviour, recorded in `ub`
@@ -248,7 +265,7 @@ def step (s : State) : Ev → Option State
     -- holds the mutex; then free(server_data) and the pointer is cleared — no lock is taken.  The integrator may be anywhere.
     if s.srvUp = true ∧ (s.spc = .accepting ∨ s.spc = .sending) then
       some { s with srvUp := false, spc := .accepting, owner := none, needCopy := false,
-                    racy := s.racy || decide (s.ipc = .waitNC ∨ s.ipc = .wantLock ∨ s.ipc = .postLock ∨ s.ipc = .postUnlock) ||
+                    racy := s.racy || decide (s.ipc = .waitNC ∨ s.ipc = .wantLock ∨ s.ipc = .postLock ∨ s.ipc = .postUnlock ∨ s.ipc = .shotWait) ||
                             (decide (s.ipc = .locked ∨ s.ipc = .stepping ∨ s.ipc = .stepped) && s.ilock) }
     else none
   -- ------------------------------------------------------------------ server
@@ -273,6 +290,10 @@ def step (s : State) : Ev → Option State
     if s.spc = .ncClr ∧ s.owner = some .S then some { s with spc := .sending, owner := none }
     else if s.spc = .ncClr ∧ s.ub = true then some { s with spc := .sending, owner := none }     -- after UB: no guarantee left
     else none
+  | .sStatic =>
+    if s.spc = .accepting ∧ s.srvUp = true then some s else none
+  | .sDrop =>
+    if s.spc = .sending then some { s with spc := .accepting } else none
   | .sSent =>
     if s.spc = .sending then some { s with spc := .accepting } else none
 
@@ -318,6 +339,8 @@ def soloStep (s : Solo) : Ev → Option Solo
   | .iStepEnd =>
     if s.ipc = .stepping then
       some ⟨.stepped, { s.sim with phase := .atBoundary, steps := s.sim.steps + 1 }⟩ else none
+  | .iShotUnlock => if s.ipc = .stepped then some ⟨.shotWait, s.sim⟩ else none
+  | .iShotLock => if s.ipc = .shotWait then some ⟨.stepped, s.sim⟩ else none
   | .iUnlock => if s.ipc = .stepped then some ⟨.postUnlock, s.sim⟩ else none
   | .iClrFlag => if s.ipc = .postUnlock then some ⟨.unlocked, s.sim⟩ else none
   | .iSkipUnlock => if s.ipc = .stepped then some ⟨.unlocked, s.sim⟩ else none
@@ -345,7 +368,7 @@ structure Obs where
   nc : Option Bool
   deriving Repr, Inhabited
 
-def silentEvs : List Ev := [.iSeeNC0, .iSeeSrv true, .iSeeSrv false, .iSkipUnlock, .iSetFlag, .iClrFlag, .sReq, .sSetNC, .sClrNC]
+def silentEvs : List Ev := [.iSeeNC0, .iSeeSrv true, .iSeeSrv false, .iSkipUnlock, .iSetFlag, .iClrFlag, .sReq, .sSetNC, .sClrNC, .sDrop]
 
 def dedup (l : List State) : List State :=
   l.foldl (fun acc s => if acc.contains s then acc else acc ++ [s]) []
